@@ -1598,12 +1598,15 @@ impl StreamingQueueCompressor {
             if need_sync {
                 // Reached synchronization point (every 50 contigs GLOBALLY)
                 // C++ AGC does: cnt_contigs_in_sample = 0; --sample_priority;
-                if let Some(priority) = priorities.get_mut(&sample_name) {
-                    *priority -= 1;
-                }
-
-                // Get the NEW priority (after decrement) for sync tokens
-                let new_priority = *priorities.get(&sample_name).unwrap();
+                // Contigs pushed from now on get a fresh, strictly lower priority drawn from the
+                // shared counter, so nothing pushed later can outrank the sync tokens below.
+                let new_priority = {
+                    let mut next_p = self.next_priority.lock().unwrap();
+                    let priority = *next_p;
+                    *next_p -= 1;
+                    priority
+                };
+                priorities.insert(sample_name.clone(), new_priority);
 
                 // Drop locks before inserting sync tokens to avoid deadlock
                 drop(priorities);
@@ -1624,10 +1627,10 @@ impl StreamingQueueCompressor {
                         sample_name: sample_name.clone(),
                         contig_name: String::from("<SYNC>"),
                         data: Vec::new(),
-                        // Use large priority boost to ensure sync tokens are processed BEFORE any contigs
-                        // With +1, contigs with same priority but higher cost were being popped first
-                        // This caused barrier deadlock when some workers exited before others got sync tokens
-                        sample_priority: new_priority + 1_000_000,
+                        // Same priority as the contigs queued so far: with cost 0 the tokens are
+                        // pulled after all of them and before anything pushed later (C++ AGC:
+                        // EmplaceManyNoCost at the current sample_priority, then --sample_priority).
+                        sample_priority: current_priority,
                         cost: 0,
                         sequence,
                         is_sync_token: true,
